@@ -185,6 +185,22 @@ def run_unit(tmpl, tier, seeds=(0, 1, 2)):
     out["canaries"] = canaries
     res = V.run(path, tmpl.verus_args)
     out["runs"] = 1
+    if res.hard_errors and out["drift"]:
+        # the merged text does not compile: try the other placement of inserted tokens
+        try:
+            asm2 = U.assemble(tmpl, flip=True)
+            add_canaries(tmpl, asm2)
+            asm2.path = path
+            open(path, "w").write(asm2.text)
+            res2 = V.run(path, tmpl.verus_args)
+            out["runs"] += 1
+            if not res2.hard_errors:
+                asm, res = asm2, res2
+                out["fired"], out["assumptions"], out["items"] = asm.fired, asm.assumptions, asm.items
+            else:
+                open(path, "w").write(asm.text)
+        except U.UnitError:
+            pass
     out["cmd"] = res.cmd
     fails, undecided, canary_hits = classify(tmpl, asm, res)
     out["verified"], out["functions"], out["smt_ms"] = res.verified, res.functions, res.smt_ms
